@@ -197,6 +197,9 @@ struct ImageDamage : Family {
 		}
 		std::unordered_set<uint64_t> seen;
 		size_t calls = 0;
+		// one sprite loader lives through the whole sweep; the ArtFile it shares takes the value of every PRT that loads (valid or damaged)
+		std::shared_ptr<ArtFile> sharedArt;
+		std::unique_ptr<SpriteLoader> longLoader;
 		for (size_t vi = 0; vi < variants.size(); ++vi) {
 			const Line& dmg = variants[vi];
 			// backend rotates so that every backend meets every damage class over the sweep; a pinned variant carries its backend
@@ -281,6 +284,25 @@ struct ImageDamage : Family {
 							size_t i = tok[0] == '~' ? static_cast<size_t>(parseU64(tok.substr(1)) % (n + 2)) : static_cast<size_t>(parseU64(tok));
 							disk::put("pix.bmp", prngBytes(op.u("pseed", 1), static_cast<size_t>(op.u("pix", 2000))));
 							fo = callLib(plan, [&] { SpriteLoader sl("pix.bmp", art); sl.ExtractImage(i, "_s/out" + std::to_string(oi) + ".bmp"); }, &what);
+							if (!largeSweep && !plan.envu("large", 0)) {
+								std::string lw;
+								Out lo = callLib(plan, [&] {
+									if (!longLoader) {
+										// its first sprites come from a smaller sibling of the PRT (one palette, every image using it)
+										disk::put("pixlong.bmp", prngBytes(plan.seed ^ 0x91, 6000));
+										ArtFile small = *art;
+										if (small.palettes.size() > 1) small.palettes.resize(1);
+										for (auto& im : small.imageMetas) im.paletteIndex = 0;
+										sharedArt = std::make_shared<ArtFile>(small);
+										longLoader = std::make_unique<SpriteLoader>("pixlong.bmp", sharedArt);
+										for (size_t q = 0; q < small.imageMetas.size() && q < 4; ++q) { try { longLoader->ExtractImage(q, "_s/long_first.bmp"); } catch (const std::exception&) {} }
+									}
+									*sharedArt = *art;
+									longLoader->ExtractImage(i, "_s/long" + std::to_string(oi) + ".bmp");
+								}, &lw);
+								if (lo == ErrOther) ctx.fail("C11.ordinary-error", "sprite extraction through a long-lived loader (its shared ArtFile holding the PRT just loaded) failed with something that is not a std::exception");
+								ctx.count("probe.sprite_through_long_lived_loader");
+							}
 							if (i == n) ctx.count("probe.sprite_index_equals_count");
 							if (fo == OkOut) ctx.count("probe.sprite_extracted");
 						} else continue;
